@@ -684,7 +684,15 @@ func handleInputStream(s *Session, handler Handler) (err error) {
 	iqNeedsResp := typ == string(stanza.GetIQ) || typ == string(stanza.SetIQ)
 	// If the user did not write a response to an IQ, send a default one.
 	if iqOk && iqNeedsResp && !rw.wroteResp {
-		_, fromAttr := attr.Get(start.Attr, "from")
+		// The sender is named by the unqualified from attribute only (attr.Get
+		// would also match x:from in some other namespace).
+		var fromAttr string
+		for _, a := range start.Attr {
+			if a.Name.Space == "" && a.Name.Local == "from" {
+				fromAttr = a.Value
+				break
+			}
+		}
 		var to jid.JID
 		if fromAttr != "" {
 			to, err = jid.Parse(fromAttr)
@@ -720,6 +728,11 @@ func getIDTyp(attrs []xml.Attr) (int, int, string, string) {
 	idIdx := -1
 	typIdx := -1
 	for idx, attr := range attrs {
+		// Only unqualified attributes are the stanza's own id and type (x:id or
+		// x:type in some other namespace are not).
+		if attr.Name.Space != "" {
+			continue
+		}
 		switch attr.Name.Local {
 		case "id":
 			id = attr.Value
